@@ -1323,6 +1323,20 @@ def check_prune_sites(ctx, f: FuncInfo, rule="PRUNE-sites"):
       kind = "final rule"
     elif "StyleProperties.Display)" in raw and "DisplayType.none" in raw:
       kind = "display=none"
+      # display=none is a ground only as the value the snapshot element has after the animation steps were applied: a test of
+      # the source element's specified style, or one that runs before the loop over the animation steps, ignores `set` steps
+      recv = [unparse(c_.func.value) for t_, _p in conds for c_ in ast.walk(t_) if isinstance(c_, ast.Call) and isinstance(c_.func, ast.Attribute)
+              and c_.func.attr == "get_style" and "Display" in unparse(c_)]
+      anim = [i_ for i_, st_ in enumerate(f.node.body) if any(isinstance(x_, ast.For) and "iter_animation_steps" in unparse(x_.iter) for x_ in ast.walk(st_))]
+      ti_ = _top_index(f, r)
+      src = f.params[3] if len(f.params) > 3 and f.params[3] == "element" else "element"
+      early = bool(anim) and ti_ is not None and ti_ <= max(anim)
+      if any(rv == src for rv in recv) or early:
+        n += 1
+        ctx.bad(rule, f"{f.qualname}|return None under `{short(conds[-1][0], 50)}`", ctx.where(f.module, r),
+                f"`{short(conds[-1][0], 70)}` drops the element on " + ("the specified style of the source element" if any(rv == src for rv in recv) else "a display value read before the animation steps are applied")
+                + ": an element with display=none and an active `set` step to auto is shown by TTML and missing from the snapshot")
+        continue
     elif "is_active" in raw or "activity" in txt or ("offset" in raw and ("begin" in raw or "end" in raw or "interval" in raw)):
       kind = "inactive at the offset"
     elif "region" in raw.lower() and any(op_ in raw for op_ in (" is not ", " != ", " is ")) and any(isinstance(c_, ast.Compare) and any(isinstance(x_, ast.Name) and "region" in x_.id for x_ in ast.walk(c_)) for t_, _p in conds for c_ in ast.walk(t_)):
@@ -1493,4 +1507,36 @@ def check_region_docs_cover(ctx, rule="COVER-regions"):
   ctx.check(not bad, rule, key, ctx.where(f.module, f.node), f"interpreted on {n} sample documents",
             "ISD.significant_times, interpreted with the clone and the collector replaced by recorders: " + "; ".join(bad[:3]) +
             " - a region that is left out has no cached document: its times are not significant times and snapshots taken with the cache never show it, even while an animation step displays it")
+  return n
+
+
+def check_animation_last_wins(ctx, f: FuncInfo, rule="ORD-animlast"):
+  """Among the `set` steps of an element that are active at the offset the last one in document order decides the value (TTML2
+  animation: later steps override earlier ones).  In the loop of _process_element over iter_animation_steps() the store on the
+  snapshot element is therefore reached for every active step: no test in that loop reads the snapshot element itself (a
+  has_style / get_style guard would let the first active step win), and the store is not moved behind a `break`."""
+  ctx.unit(f.module)
+  loops = [n for n in own_nodes(f.node) if isinstance(n, ast.For) and "iter_animation_steps" in unparse(n.iter)]
+  n = 0
+  for lp in loops:
+    stores = [c for c in ast.walk(lp) if isinstance(c, ast.Call) and isinstance(c.func, ast.Attribute) and c.func.attr == "set_style"]
+    if not stores:
+      ctx.undecide(rule, f"{f.qualname}: the loop over the animation steps holds no set_style call")
+      continue
+    recv = {unparse(c.func.value) for c in stores}
+    key = f"{f.qualname}|every active step reaches `{short(stores[0], 50)}`"
+    n += 1
+    offenders = []
+    for t in [x for x in ast.walk(lp) if isinstance(x, (ast.If, ast.IfExp, ast.While))]:
+      reads = {unparse(c.func.value) for c in ast.walk(t.test) if isinstance(c, ast.Call) and isinstance(c.func, ast.Attribute)}
+      if reads & recv:
+        offenders.append(t)
+    brk = [b for b in ast.walk(lp) if isinstance(b, ast.Break)]
+    if offenders:
+      ctx.bad(rule, key, ctx.where(f.module, offenders[0]), f"the loop over the animation steps tests `{short(offenders[0].test, 60)}` on the snapshot element: a step is skipped when an earlier "
+              "active step has set the property, so of two overlapping `set` steps the first wins where TTML lets the last one win")
+    elif brk:
+      ctx.bad(rule, key, ctx.where(f.module, brk[0]), "the loop over the animation steps is left by `break`: later active steps are not applied")
+    else:
+      ctx.ok(rule, key, ctx.where(f.module, lp), "no test on the snapshot element, no break")
   return n
